@@ -468,3 +468,19 @@ theorem C10_facts_massive_mode_is_chosen_by_the_option_alone :
   ⟨entry_points_build_a_fresh_tree.2.2, by decide⟩
 
 end Gtree
+
+namespace Gtree
+
+/-- **C10 (facts: the massive operations).**  Every operation of the massive tree is, on this run, the chain of stages the
+    network model (`Model/Net.lean`) was written from: splitter and generator for the Markdown forms, the grower stage
+    before the stage that consumes its roots, the wait for the stages' errors last. -/
+theorem C10_facts_massive_operations_run_the_expected_stages :
+    Facts.treePipelineCalls = expectedPipelineCalls ∧
+    [("mkdir", "mkdirer.mkdir"), ("mkdirProgrammably", "mkdirer.mkdir"), ("verify", "verifier.verify"),
+     ("verifyProgrammably", "verifier.verify"), ("walk", "walker.walk"), ("walkProgrammably", "walker.walk"),
+     ("output", "spreader.spread"), ("outputProgrammably", "spreader.spread")].all
+      (fun e => calledBefore "grower.grow" e.2 (lookupL e.1 Facts.treePipelineCalls) &&
+        (lookupL e.1 Facts.treePipelineCalls).getLast? == some "t.handlePipelineErr") = true :=
+  ⟨massive_operations_are_as_expected, massive_operations_validate_then_grow_then_use.2⟩
+
+end Gtree
